@@ -7,7 +7,10 @@ use boa_macros::{Finalize, Trace};
 
 use crate::{
     JsString,
-    object::shape::{Shape, WeakShape, slot::Slot},
+    object::shape::{
+        Shape, WeakShape,
+        slot::{Slot, SlotAttributes},
+    },
 };
 
 #[cfg(test)]
@@ -22,6 +25,11 @@ pub(crate) struct CacheEntry {
     pub(crate) shape: WeakShape,
     #[unsafe_ignore_trace]
     pub(crate) slot: Slot,
+    /// For a slot found on the prototype: the shape the prototype had when the entry was created.
+    ///
+    /// The receiver's shape only pins the identity of the prototype, not its layout: deleting or
+    /// reconfiguring a property of the prototype moves or changes the cached slot.
+    pub(crate) prototype_shape: Option<WeakShape>,
 }
 
 /// An inline cache entry for a property access.
@@ -73,11 +81,21 @@ impl InlineCache {
 
         let mut entries = self.entries.borrow_mut();
 
+        let prototype_shape = if slot.attributes.contains(SlotAttributes::PROTOTYPE) {
+            let Some(prototype) = shape.prototype() else {
+                return;
+            };
+            Some(prototype.borrow().shape().into())
+        } else {
+            None
+        };
+
         // Add a new entry if there's space.
         if entries
             .try_push(CacheEntry {
                 shape: shape.into(),
                 slot,
+                prototype_shape,
             })
             .is_err()
         {
@@ -107,6 +125,20 @@ impl InlineCache {
         while i < entries.len() {
             if let Some(upgraded) = entries[i].shape.upgrade() {
                 if upgraded.to_addr_usize() == shape_addr {
+                    if let Some(prototype_shape) = &entries[i].prototype_shape {
+                        // `upgrade` first: the address of a dead shape can be reused.
+                        let still_valid = prototype_shape.upgrade().is_some_and(|cached| {
+                            upgraded.prototype().is_some_and(|prototype| {
+                                prototype.borrow().shape().to_addr_usize()
+                                    == cached.to_addr_usize()
+                            })
+                        });
+                        if !still_valid {
+                            // The prototype's layout changed: the entry is stale.
+                            entries.swap_remove(i);
+                            break;
+                        }
+                    }
                     result = Some((upgraded, entries[i].slot));
                     break;
                 }
